@@ -24,8 +24,10 @@ static char g_hostname[300];
 static int g_getifaddrs_fail;
 static unsigned g_slept_ms;
 
-void *lp_make_iface(const char *name, unsigned ifType, unsigned mediumType, unsigned mtu, unsigned linkSpeed, unsigned flags, const unsigned char mac[6], int sock) {
+void *lp_make_iface(const char *name, unsigned ifType, unsigned mediumType, unsigned mtu, unsigned linkSpeed, unsigned flags, const unsigned char mac[6], int sock, int ifclass) {
     network_interface_t *n = calloc(1, sizeof *n);
+    n->interfaceType = ifclass;   /* bond / bridge / ethernet / 802.11 / VLAN: must not influence what the getters report */
+    n->MapperKnown = 1; n->seeListCount = 77; n->MapperSeqNumber = 0x4242; n->helloSent = 1;   /* daemon bookkeeping fields the port must ignore */
     n->deviceName = strdup(name);
     n->ifType = ifType; n->MediumType = mediumType; n->MTU = mtu; n->LinkSpeed = linkSpeed; n->flags = flags; n->socket = sock;
     memcpy(n->macAddress, mac, 6);
